@@ -40,8 +40,8 @@ type SimWriter struct {
 	Sizes    []int  // size of each Write call's argument
 	FaultAt  int    // call index of the fault (0-based); ignored if Mode==FaultNone
 	Mode     int
-	Frac     int // for FaultPartial: accept (len*Frac/100) bytes, at most len-1
-	Fired    int // how many calls returned an injected error
+	Frac     int  // for FaultPartial: accept (len*Frac/100) bytes, at most len-1
+	Fired    int  // how many calls returned an injected error
 	ZeroLen  bool // the fault landed on a zero-length Write
 	Y        Yielder
 	asString bool
